@@ -276,7 +276,7 @@ PROPS["C01"] = dict(
     level="exploration",
     design_ref="DESIGN.md §1 C01",
     technique="runtime monitor: reference chain-segment model + differential twin run, with hook log, publisher request log and store inspection",
-    rule=("ad-chain: seeded configurations over chain length 1..6 (head index), head = queried root | WithHeadAdCid, stop = none | SetLatestSync | "
+    rule=("ad-chain: seeded configurations over chain length 1..6 (quick) or 1..9 (thorough), head = queried root | WithHeadAdCid, stop = none | SetLatestSync | "
           "WithLastKnownSync | WithStopAdCid on the chain (incl. equal to the head, newer than the head) | off-chain stop CID, WithAdsResync, depth "
           "= none | AdsDepthLimit | FirstSyncDepth | ScopedDepthLimit (incl. -1) and pairs, each 1..L+1, segment size = disabled | "
           "SegmentDepthLimit | ScopedSegmentDepthLimit 1..L+1, any subset of pre-stored blocks, strict/non-strict selector, plain and "
